@@ -51,8 +51,8 @@ def property_checks(inp):
 
 def gen_input(rng):
     N = rng.choice([2, 4, 6, 8, 16, 32])
-    d1 = rng.loguniform(1e-4, 1e-2); wvl = rng.uniform(0.4e-6, 2e-6)
-    return {"N": N, "wvl": wvl, "d1": d1, "mag": rng.choice([1.0, rng.uniform(0.3, 3.0), 2.0, 0.5]),
+    wvl = rng.uniform(0.4e-6, 2e-6); d1 = oc.gen_spacing(rng, wvl)
+    return {"N": N, "wvl": wvl, "d1": d1, "mag": rng.choice([1.0, oc.gen_mag(rng), oc.gen_mag(rng), 2.0, 0.5]),
             "z": rng.choice([-1, 1]) * rng.loguniform(0.05, 50.0) * (N * d1 * d1 / wvl),
             "f": rng.choice([-1, 1]) * rng.loguniform(0.1, 30.0), "data_seed": rng.getrandbits(32),
             "a": [rng.uniform(-2, 2), rng.uniform(-2, 2)], "b": [rng.uniform(-2, 2), rng.uniform(-2, 2)]}
